@@ -582,6 +582,15 @@ func (ex *Exec) ghostVar(st *State, name string) *Term {
 // key is absent. No eviction between the calls of one operation.
 const bigcachePkg = "github.com/allegro/bigcache"
 
+// bcInterfere: in interference mode other goroutines may have changed the cache since the previous call.
+func (ex *Exec) bcInterfere(st *State, d *Object) {
+	if !ex.Cfg.Interference {
+		return
+	}
+	st.Ghost[fmt.Sprintf("bc:%d:has", d.ID)] = Var(ex.G.name("bc_has_interfered"), ArrSort(SB, SBool))
+	st.Ghost[fmt.Sprintf("bc:%d:val", d.ID)] = Var(ex.G.name("bc_val_interfered"), ArrSort(SB, SB))
+}
+
 func (ex *Exec) bcHas(st *State, d *Object) *Term {
 	return ex.ghostArr(st, fmt.Sprintf("bc:%d:has", d.ID), ArrSort(SB, SBool), "bc_has")
 }
@@ -602,6 +611,7 @@ func init() {
 		if c == nil {
 			return nil, false
 		}
+		ex.bcInterfere(st, c)
 		key := strArg(ex, st, args[1])
 		has := Select(ex.bcHas(st, c), key)
 		mk := func(s *State, found bool) *TupleV {
@@ -635,6 +645,7 @@ func init() {
 		if c == nil {
 			return nil, false
 		}
+		ex.bcInterfere(st, c)
 		key, val := strArg(ex, st, args[1]), strArg(ex, st, args[2])
 		st.Ghost[fmt.Sprintf("bc:%d:has", c.ID)] = Store(ex.bcHas(st, c), key, TTrue)
 		st.Ghost[fmt.Sprintf("bc:%d:val", c.ID)] = Store(ex.bcVal(st, c), key, val)
@@ -645,6 +656,7 @@ func init() {
 		if c == nil {
 			return nil, false
 		}
+		ex.bcInterfere(st, c)
 		key := strArg(ex, st, args[1])
 		has := Select(ex.bcHas(st, c), key)
 		st.Ghost[fmt.Sprintf("bc:%d:has", c.ID)] = Store(ex.bcHas(st, c), key, TFalse)
